@@ -594,22 +594,24 @@ type LocationList struct {
 
 // Len returns the length of the list.
 func (ll *LocationList) Len() int {
-	if ll.Next == nil {
-		if ll.Data == nil {
-			return 0
-		}
-		return 1
+	n := 0
+	for ; ll.Next != nil; ll = ll.Next {
+		n++
 	}
-	return ll.Next.Len() + 1
+	if ll.Data != nil {
+		n++
+	}
+	return n
 }
 
 // Slice returns the slice representation of the list.
 func (ll *LocationList) Slice() []Location {
 	list := []Location{ll.Data}
-	if ll.Next == nil {
-		return list
+	for ll.Next != nil {
+		ll = ll.Next
+		list = append(list, ll.Data)
 	}
-	return append(list, ll.Next.Slice()...)
+	return list
 }
 
 // Push a Location object to the end of the list. If the Location object is
@@ -618,14 +620,16 @@ func (ll *LocationList) Slice() []Location {
 // last element will be replaced with the joined Location object. If the force
 // option is false, then only partial ranges will be joined.
 func (ll *LocationList) Push(loc Location, force bool) {
-	if ll.Next != nil {
-		ll.Next.Push(loc, force)
-		return
+	for ll.Next != nil {
+		ll = ll.Next
 	}
 
 	if joined, ok := loc.(Joined); ok {
 		for i := range joined {
 			ll.Push(joined[i], force)
+			for ll.Next != nil {
+				ll = ll.Next
+			}
 		}
 		return
 	}
@@ -713,8 +717,14 @@ type Joined []Location
 // a Joined object will be returned.
 func Join(locs ...Location) Location {
 	list := LocationList{}
+	// Push works on the last node of the list it is given, so handing it the
+	// current tail instead of the head keeps joining n locations linear.
+	tail := &list
 	for _, loc := range locs {
-		list.Push(loc, true)
+		tail.Push(loc, true)
+		for tail.Next != nil {
+			tail = tail.Next
+		}
 	}
 
 	switch list.Len() {
